@@ -129,6 +129,16 @@ def evaluate(case, native):
         return None, 'no native result'
     if 'panic' in native:
         return True, 'the real code panicked: ' + native['panic'][-300:]
+    if kind == 'max_generation':
+        g, lim = case['generation'], case['limit']
+        e = native['estimate']
+        if e == 'NaN' or not (0.0 <= e <= 1.0):
+            return True, f'MaxGeneration::estimate(generation={g}, limit={lim}) = {e} is not a number in [0,1]'
+        if g >= lim and e != 1.0:
+            return True, f'MaxGeneration::estimate(generation={g}, limit={lim}) = {e} although the limit is reached'
+        if native['is_termination'] != (g >= lim):
+            return True, f"is_termination(generation={g}, limit={lim}) = {native['is_termination']}"
+        return False, 'termination math agrees'
     if kind == 'time_aware':
         ms = sorted(case['matrices'], key=lambda m: m['timestamp'])
         cell = case['from'] * case['size'] + case['to']
